@@ -1754,6 +1754,51 @@ func (g *Gen) runInline(fn *ssa.Function, binds []Val, args []Val, rt types.Type
 	return Val{T: rt, Tuple: out}
 }
 
+// GenerateStable generates the obligations of one function with every heap variable declared before the body is
+// executed. Heap variables are declared on first use; a variable first mentioned after a coarse havoc (a call with
+// modifies=all, a loop without frame) would otherwise still carry its entry value there, although the havoc must cover
+// it. The generator therefore runs until the set of heap variables no longer grows (normally twice), each pass
+// starting with the variables of the previous one already declared.
+func GenerateStable(E *Engine, fn *ssa.Function, key string, fc *FuncContract) (*Gen, error) {
+	var prev map[string]string
+	var prevDT [][2]string
+	var g *Gen
+	for pass := 0; pass < 4; pass++ {
+		fatals := len(E.fatals)
+		g = NewGen(E, fn, key, fc)
+		if prev != nil {
+			// the struct sorts the heap variables mention, in the order they were first declared
+			for _, dt := range prevDT {
+				if !g.declared[dt[0]] {
+					g.declared[dt[0]] = true
+					g.emit("%s", dt[1])
+					g.dtDecls = append(g.dtDecls, dt)
+				}
+			}
+			names := make([]string, 0, len(prev))
+			for n := range prev {
+				names = append(names, n)
+			}
+			sort.Strings(names)
+			for _, n := range names {
+				g.heapDecl(n, prev[n])
+			}
+		}
+		if err := g.Run(); err != nil {
+			return nil, err
+		}
+		if prev != nil && len(g.heapSort) == len(prev) {
+			return g, nil
+		}
+		prev = g.heapSort
+		prevDT = g.dtDecls
+		if pass < 3 {
+			E.fatals = E.fatals[:fatals] // reported again by the next pass
+		}
+	}
+	return g, nil
+}
+
 // lastPos: the position of the last instruction of the block (or of its dominators) that has one.
 func lastPos(b *ssa.BasicBlock) token.Pos {
 	for ; b != nil; b = b.Idom() {
